@@ -29,7 +29,7 @@ for wt in sorted(glob.glob("/tmp/mut/c*")):
         if os.path.exists(reb): shutil.copy(reb, f"{dst}/patch.rebased_on_final_head.diff")
         try: meta = json.load(open(f"{src}/meta.json"))
         except Exception: meta = {}
-        meta["breaks_property"] = pid.upper()
+        meta["breaks_property"] = pid.upper().split("R")[0]
         meta["confirmed_by_me"] = {"demo_cmd": c["demo_cmd"], "demo_dest": c["demo_dest"],
                                    "demo_on_unchanged_tree": c["demo_on_head"], "demo_with_change": c["demo_with_change"],
                                    "existing_tests_with_change": c["existing_tests_with_change"]}
